@@ -97,3 +97,31 @@ static errno_t shim_gets_s(char *dest, rsize_t dmax, size_t destbos, const char 
     if (r && r != dest) shim_die("gets_s returned a foreign pointer");
     return r ? 0 : (e ? e : -1);
 }
+
+/* gmtime_s / localtime_s: `res` is libc's struct tm for *timer (the model copies it); compared with gmtime_r / localtime_r when
+   `check` is set.  tm_zone is an address inside libc: cleared in dest after the call (the model stores 0 there).
+   returns 0 when the call returned dest, errno when it returned NULL (-1: NULL with errno 0) */
+static errno_t shim_tm_s(int local, const time_t *timer, struct tm *dest, const struct tm *res, long check) {
+    if (check && timer && res) {
+        struct tm t; memset(&t, 0, sizeof t);
+        struct tm *r = local ? localtime_r(timer, &t) : gmtime_r(timer, &t);
+        if (!r) shim_die("libc could not convert the time");
+        t.tm_zone = NULL;
+        if (t.tm_sec != res->tm_sec || t.tm_min != res->tm_min || t.tm_hour != res->tm_hour || t.tm_mday != res->tm_mday ||
+            t.tm_mon != res->tm_mon || t.tm_year != res->tm_year || t.tm_wday != res->tm_wday || t.tm_yday != res->tm_yday ||
+            t.tm_isdst != res->tm_isdst || t.tm_gmtoff != res->tm_gmtoff) {
+            fprintf(stderr, "timer=%ld libc=%d-%d-%d %d:%d:%d wday=%d yday=%d given=%d-%d-%d %d:%d:%d wday=%d yday=%d\n", (long)*timer,
+                    t.tm_year, t.tm_mon, t.tm_mday, t.tm_hour, t.tm_min, t.tm_sec, t.tm_wday, t.tm_yday,
+                    res->tm_year, res->tm_mon, res->tm_mday, res->tm_hour, res->tm_min, res->tm_sec, res->tm_wday, res->tm_yday);
+            shim_die("struct tm differs from libc's");
+        }
+    }
+    errno = 0;
+    struct tm *r = local ? localtime_s(timer, dest) : gmtime_s(timer, dest);
+    int e = errno;
+    if (r && r != dest) shim_die("gmtime_s/localtime_s returned a foreign pointer");
+    if (r) dest->tm_zone = NULL;
+    return r ? 0 : (e ? e : -1);
+}
+static errno_t shim_gmtime_s(const time_t *timer, struct tm *dest, const struct tm *res, long check) { return shim_tm_s(0, timer, dest, res, check); }
+static errno_t shim_localtime_s(const time_t *timer, struct tm *dest, const struct tm *res, long check) { return shim_tm_s(1, timer, dest, res, check); }
